@@ -95,6 +95,17 @@ def check(ctx: Ctx, col: Collector, tier: str) -> None:
         else:
             col.ok("C09.CONVERT-SHAPE", key, repo.loc(GHELPER, cfi.node), "every part is joined with its first character upper-cased" + ("" if icn else ", the first part is kept"))
 
+        # (3) the leading underscores are removed: what follows may start with a digit (`_1`, `_2nd`), which is no identifier
+        conv = [o for o in rets if not (isinstance(o.value, Const) or (o.value == Sym("name") and only_underscores(o)))]
+        tested = [o for o in conv if any(re.search(r"\.(isdigit|isidentifier|isalpha|isdecimal|isnumeric)\(|re\.(match|fullmatch)\(", k) for k, _ in o.facts)]
+        key = f"{GHELPER}::{CONV}::SAFE_DS,is_class_name={icn}::digit-after-underscores"
+        if conv and len(tested) == len(conv):
+            col.ok("C09.CONVERT-SHAPE", key, repo.loc(GHELPER, cfi.node), f"all {len(conv)} converting paths test the first character that is left")
+        else:
+            col.bad("C09.CONVERT-SHAPE", key, repo.loc(GHELPER, cfi.node), f"{len(conv) - len(tested)} of {len(conv)} converting paths never look at the first remaining character",
+                    f"{CONV}(is_class_name={icn}) removes the leading underscores without looking at what follows: `_1`, `_2nd`, `_3d` become `1`, `2nd`, `3d` - "
+                    f"`def polygon(_1: int)` is emitted as `@PythonName(\"_1\") 1: Int` and `class Version(Enum): _1 = 1` as the variant `1`, which are no identifiers (C02)")
+
     # ------------------------------------------------------------------ FLAG-SLICE
     gm = repo.module(GEN)
     n_uses = 0
